@@ -1975,8 +1975,16 @@ impl QueryRouter {
             StatementKind::Delete(delete) => self.exec_delete(delete),
             StatementKind::CreateTable(create) => self.exec_create_table(create),
             StatementKind::DropTable(drop) => {
-                self.relational.drop_table(&drop.table.name)?;
-                Ok(QueryResult::Empty)
+                match self.relational.drop_table(&drop.table.name) {
+                    // DROP TABLE IF EXISTS on a missing table is a no-op, not an error.
+                    Err(relational_engine::RelationalError::TableNotFound(_))
+                        if drop.if_exists =>
+                    {
+                        Ok(QueryResult::Empty)
+                    },
+                    Err(e) => Err(e.into()),
+                    Ok(()) => Ok(QueryResult::Empty),
+                }
             },
             StatementKind::CreateIndex(create) => {
                 // Use first column for index (simplified)
@@ -4978,8 +4986,16 @@ impl QueryRouter {
         }
 
         let schema = relational_engine::Schema::new(columns);
-        self.relational.create_table(&create.table.name, schema)?;
-        Ok(QueryResult::Empty)
+        match self.relational.create_table(&create.table.name, schema) {
+            // CREATE TABLE IF NOT EXISTS on an existing table is a no-op, not an error.
+            Err(relational_engine::RelationalError::TableAlreadyExists(_))
+                if create.if_not_exists =>
+            {
+                Ok(QueryResult::Empty)
+            },
+            Err(e) => Err(e.into()),
+            Ok(()) => Ok(QueryResult::Empty),
+        }
     }
 
     fn exec_node(&self, node: &NodeStmt) -> Result<QueryResult> {
